@@ -428,6 +428,7 @@ class ApplicationJobs:
         # attributes
         self.planned_jobs: ApplicationJobs.PlannedJobs = jobs
         self.current_jobs: ApplicationJobs.CommandList = []
+        self.processing_group: bool = False
 
     # miscellaneous methods
     def __repr__(self):
@@ -508,7 +509,7 @@ class ApplicationJobs:
         """
         self.logger.trace(f'ApplicationJobs.in_progress: planned_jobs={self.planned_jobs}'
                           f' current_jobs={self.current_jobs}')
-        return len(self.planned_jobs) > 0 or len(self.current_jobs) > 0
+        return self.processing_group or len(self.planned_jobs) > 0 or len(self.current_jobs) > 0
 
     def before(self) -> None:
         """ Special processing to be done before command sequences start.
@@ -521,7 +522,7 @@ class ApplicationJobs:
 
         :return: None
         """
-        if not self.current_jobs and self.planned_jobs:
+        if not self.processing_group and not self.current_jobs and self.planned_jobs:
             # pop lower group from sequence
             sequence_number = self.pickup_logic(self.planned_jobs)
             group = self.planned_jobs.pop(sequence_number)
@@ -530,9 +531,16 @@ class ApplicationJobs:
             # trigger application jobs
             # do NOT use a list comprehension as pending requests will not be considered in instance load
             # process the jobs one by one and insert them in current_jobs asap
-            for command in group:
-                if self.process_job(command):
-                    self.current_jobs.append(command)
+            # NOTE: a command that cannot be performed generates a forced process event that triggers the Commander again.
+            #       Until the whole group has been processed, the present jobs must neither be considered as completed
+            #       (the remaining commands of the group would not be followed), nor trigger their next group
+            self.processing_group = True
+            try:
+                for command in group:
+                    if self.process_job(command):
+                        self.current_jobs.append(command)
+            finally:
+                self.processing_group = False
             self.logger.trace(f'ApplicationJobs.next: current_jobs={self.current_jobs}')
             # recursive call in the event where there's already nothing left to do
             self.next()
